@@ -113,9 +113,17 @@ bool RunLengthEncoder::Decode(unsigned int start_channel,
     unsigned int segment_length = src_data[i] & (~REPEAT_FLAG);
     if (src_data[i] & REPEAT_FLAG) {
       i++;
+      if (i >= length) {
+        // truncated, the value to repeat is missing
+        return false;
+      }
       dst->SetRangeToValue(destination_index, src_data[i++], segment_length);
     } else {
       i++;
+      if (segment_length > length - i) {
+        // truncated, the segment claims more data than we were given
+        return false;
+      }
       dst->SetRange(destination_index, src_data + i, segment_length);
       i += segment_length;
     }
